@@ -25,6 +25,9 @@ rescales rod.radius per element, so surface / edge markers must sit at the CURRE
 rigid bodies get a completely new centre and director frame in 50 % (a grid that cached geometry at construction is stale);
 2-D rigid states with d3 = -z and non-zero spin are counted and required.
 
+Self-test of the added dimension: surface grid using rod.radius as cached at construction (sed) -> VIOLATION
+marker-distance-from-element-centre|surface3d in state1 (after the stretch / advance).
+
 Tolerances: 64 * eps64 * (|terms|).  Measured max err/tol on the unchanged tree (quick seeds 0..5, thorough
 seeds 0,1): rigid_velocity 0.022, rod_velocity 0.009, rod_position 0.06 (0.05 of it on the edge grid: PyElastica's
 +1e-14 length regularisation makes |tangent| = 1 - 1e-14/l_e; 20x that is allowed), sphere_translation 0.022.
